@@ -47,6 +47,11 @@ pub enum What {
     Input(String),
     /// raise(SIGWINCH)
     Winch,
+    /// two window-size signals, the second one placed (through the point hook) right after the
+    /// terminal has answered the size request caused by the first and before the terminal
+    /// object has read that answer; only different from `Winch` in sessions that take the size
+    /// from escape sequences
+    WinchTwice,
 }
 
 #[derive(Clone, Debug, Serialize, Deserialize)]
@@ -216,6 +221,24 @@ fn run_session(case: &Case) -> Result<(Pass, bool), Fail> {
     }
 
     for (ri, round) in case.rounds.iter().enumerate() {
+        // `WinchTwice` has a meaning of its own only where SIGWINCH is answered by asking the
+        // terminal; there the first signal precedes a poll with a finite timeout, nothing else
+        // is going on, and the second signal is placed by the hook below
+        let twice = matches!(round.what, What::WinchTwice) && case.size_by_escape && round.position.is_none();
+        let round_norm = match (&round.what, twice) {
+            (What::WinchTwice, true) => Round {
+                what: What::WinchTwice,
+                place: Place::BeforePoll,
+                timeout: Timeout::Ms50,
+                pending_output: 0,
+                hold_stall: false,
+                position: None,
+                wake_again: false,
+            },
+            (What::WinchTwice, false) => Round { what: What::Winch, ..round.clone() },
+            _ => round.clone(),
+        };
+        let round = &round_norm;
         // optional pending output
         // (with the size taken from escape sequences a SIGWINCH is answered by asking the terminal:
         // question and answer need the other end to read, so such a round cannot hold the stall)
@@ -223,7 +246,7 @@ fn run_session(case: &Case) -> Result<(Pass, bool), Fail> {
             && round.pending_output > 4096
             && round.timeout != Timeout::Infinite
             && round.position.is_none()
-            && !(case.size_by_escape && matches!(round.what, What::Winch));
+            && !(case.size_by_escape && matches!(round.what, What::Winch | What::WinchTwice));
         if let Some(pr) = &round.position {
             let st = &sess.peer.state;
             st.cpr_row.store(pr.at.0.max(2) as usize, Ordering::SeqCst);
@@ -269,7 +292,7 @@ fn run_session(case: &Case) -> Result<(Pass, bool), Fail> {
                         libc::write(master_fd, b.as_ptr() as *const libc::c_void, b.len());
                     }
                 }
-                What::Winch => unsafe {
+                What::Winch | What::WinchTwice => unsafe {
                     libc::raise(libc::SIGWINCH);
                 },
             })))
@@ -299,6 +322,35 @@ fn run_session(case: &Case) -> Result<(Pass, bool), Fail> {
                 })));
             }
         }
+        let second_winch = Arc::new(AtomicBool::new(false));
+        if twice {
+            let st = sess.peer.state.clone();
+            let base = st.size_answered.load(Ordering::SeqCst);
+            let iters = Rc::new(Cell::new(0u32));
+            let second = second_winch.clone();
+            unix_verif_hooks::set_point_hook(Some(Box::new(move |p| {
+                if p == Point::LoopStart {
+                    iters.set(iters.get() + 1);
+                }
+                // from the second iteration on (the first one has seen the signal and queued the
+                // size request): once the terminal has answered, and before this iteration's
+                // select, the window changes again
+                if p == Point::BeforeSelect && iters.get() >= 2 && !second.load(Ordering::SeqCst) {
+                    let t0 = Instant::now();
+                    while st.size_answered.load(Ordering::SeqCst) == base && t0.elapsed() < Duration::from_millis(20) {
+                        std::thread::sleep(Duration::from_micros(200));
+                    }
+                    if st.size_answered.load(Ordering::SeqCst) > base {
+                        // let the answer travel to the slave side
+                        std::thread::sleep(Duration::from_millis(3));
+                        second.store(true, Ordering::SeqCst);
+                        unsafe {
+                            libc::raise(libc::SIGWINCH);
+                        }
+                    }
+                }
+            })));
+        }
         // the poll under test
         let timeout = match (round.timeout, &round.position) {
             // position() polls without timeout
@@ -320,7 +372,7 @@ fn run_session(case: &Case) -> Result<(Pass, bool), Fail> {
                 (_, Some(_)) => "position/cannot-be-ended",
                 (What::Wake { .. }, _) => "wake/poll-cannot-be-ended",
                 (What::Input(_), _) => "input/poll-cannot-be-ended",
-                (What::Winch, _) => "signal/winch-poll-cannot-be-ended",
+                (What::Winch | What::WinchTwice, _) => "signal/winch-poll-cannot-be-ended",
             };
             let master_fd = {
                 use std::os::fd::AsRawFd;
@@ -406,7 +458,7 @@ fn run_session(case: &Case) -> Result<(Pass, bool), Fail> {
                     (_, Some(_)) => "position/did-not-return",
                     (What::Wake { .. }, _) => "wake/lost-poll-did-not-return",
                     (What::Input(_), _) => "input/poll-did-not-return",
-                    (What::Winch, _) => "signal/winch-poll-did-not-return",
+                    (What::Winch | What::WinchTwice, _) => "signal/winch-poll-did-not-return",
                 };
                 return Err(Fail::new(
                     what,
@@ -432,7 +484,7 @@ fn run_session(case: &Case) -> Result<(Pass, bool), Fail> {
                         .count()
                         >= s.chars().count()
                 }
-                What::Winch => events.iter().any(|e| matches!(e, TerminalEvent::Resize(_))),
+                What::Winch | What::WinchTwice => events.iter().any(|e| matches!(e, TerminalEvent::Resize(_))),
             };
             let t0 = Instant::now();
             let mut polls = 0u32;
@@ -443,7 +495,7 @@ fn run_session(case: &Case) -> Result<(Pass, bool), Fail> {
                         let what = match round.what {
                             What::Wake { .. } => "wake/not-delivered-while-output-pending",
                             What::Input(_) => "input/not-delivered-while-output-pending",
-                            What::Winch => "signal/winch-not-delivered-while-output-pending",
+                            What::Winch | What::WinchTwice => "signal/winch-not-delivered-while-output-pending",
                         };
                         return Err(Fail::new(
                             what,
@@ -607,12 +659,24 @@ fn run_session(case: &Case) -> Result<(Pass, bool), Fail> {
                     labels.push("typed-around-the-answer-to-position");
                 }
             }
-            What::Winch => {
+            What::Winch | What::WinchTwice => {
+                let want = if twice { 2 } else { 1 };
+                if twice {
+                    if second_winch.load(Ordering::SeqCst) {
+                        labels.push("second-winch-between-answer-and-read");
+                        inside_poll = true;
+                    } else {
+                        // the hook had no opportunity: the second signal simply follows
+                        unsafe {
+                            libc::raise(libc::SIGWINCH);
+                        }
+                    }
+                }
                 if case.size_by_escape {
                     // the terminal object asks the terminal for its size; the question and the
                     // answer travel through the pty: bounded 2 s, as for typed characters
                     let t1 = Instant::now();
-                    while !events.iter().any(|e| matches!(e, TerminalEvent::Resize(_))) && t1.elapsed() < Duration::from_secs(2) {
+                    while events.iter().filter(|e| matches!(e, TerminalEvent::Resize(_))).count() < want && t1.elapsed() < Duration::from_secs(2) {
                         match term.poll(Some(Duration::from_millis(10))) {
                             Ok(Some(ev)) => events.push(ev),
                             Ok(None) => {}
@@ -624,6 +688,14 @@ fn run_session(case: &Case) -> Result<(Pass, bool), Fail> {
                     labels.push("winch-answered-by-escape-sequence");
                 }
                 let resizes = events.iter().filter(|e| matches!(e, TerminalEvent::Resize(_))).count();
+                ensure!(
+                    resizes >= want || !twice,
+                    "signal/second-winch-lost",
+                    "round {ri} ({:?}): two window-size signals, the second one raised after the terminal had answered the size request of the first ({}); only {resizes} Resize event(s) were delivered within 2 s; events {:?}",
+                    round,
+                    if second_winch.load(Ordering::SeqCst) { "before the terminal object read that answer" } else { "after the poll" },
+                    events
+                );
                 ensure!(
                     resizes >= 1,
                     "signal/winch-lost",
@@ -923,6 +995,7 @@ impl Property for C17 {
             5 => (1u8..=3).prop_map(|threads| What::Wake { threads }),
             3 => "[a-z0-9]{1,6}".prop_map(What::Input),
             2 => Just(What::Winch),
+            1 => Just(What::WinchTwice),
         ];
         let place = prop_oneof![
             1 => Just(Place::BeforePoll),
@@ -1000,7 +1073,7 @@ impl Property for C17 {
     }
 
     fn rule(&self) -> String {
-        "session = real SystemTerminal on a pseudo-terminal (one per worker process) with a scripted peer; 0-4 rounds, each: {1-3 concurrent wake calls from other threads | the peer types 1-6 characters | raise(SIGWINCH)} placed before the poll or at one of 7 named points (loop start, before/after select, before signal processing, before the waker read, before the tty read, loop end) of loop iteration 0-2 of a poll with timeout 0 / 50 ms / none, optionally with 1-40000 bytes of output pending (above 4096 the peer is stalled, for 30 ms or -- finite timeouts, half of those rounds -- until the round's events have been delivered, which zero-timeout polls must achieve within 2 s although the output stays pending); then drained with zero-timeout polls. One round in ten calls Terminal::position() instead of poll: the peer answers the cursor position request after 0 / 1-59 / 200-399 / 1200 ms, optionally typing 1-3 characters in the same write as its answer; nothing that arrived meanwhile may be lost or reordered. In 30% of the wake rounds one more wake request is issued as soon as the poll under test has returned, before any other poll is entered; it must produce a further Wake event. Oracles: >=1 and <= #calls Wake events for wake rounds, typed characters delivered in order, >=1 Resize per SIGWINCH round, no spurious Wake. Exit path: drop | drop with pending output | Terminal::run handler error/quit at step k | run_render handler error at step k | SIGTERM/SIGINT/SIGQUIT (must surface as Error::Quit) | SIGTERM/SIGINT/SIGQUIT raised at one of the 7 points of the first poll iteration inside drop | drop with the front chunk of the output queue partly transmitted (peer stalled, 20-200 kB written and polled, 1-3000 more bytes queued, peer resumes, drop) | an application that switched mouse reporting on and the cursor off, wrote a frame, queued its own cursor-visible/mouse-off commands behind it (optionally polled once) and is dropped: the last set/reset the tty received for modes 1000, 1003, 1006 must be reset and for mode 25 set | master closed first; one session in four runs on a pty whose ioctl reports no pixel size while the peer answers CSI 18 t CSI 14 t, so the terminal object takes its size from escape sequences and answers SIGWINCH by asking the terminal (the Resize event then gets the same bounded 2 s as typed characters); afterwards tcgetattr on the slave must equal the snapshot taken before open and (master still open) the bytes received after the last application output must contain ESC[?1003l, ESC[?1006l, ESC[?1000l and ESC[?25h. non-trivial = a trigger placed strictly inside a poll or inside the release, or output pending during a round or at release".into()
+        "session = real SystemTerminal on a pseudo-terminal (one per worker process) with a scripted peer; 0-4 rounds, each: {1-3 concurrent wake calls from other threads | the peer types 1-6 characters | raise(SIGWINCH)} placed before the poll or at one of 7 named points (loop start, before/after select, before signal processing, before the waker read, before the tty read, loop end) of loop iteration 0-2 of a poll with timeout 0 / 50 ms / none, optionally with 1-40000 bytes of output pending (above 4096 the peer is stalled, for 30 ms or -- finite timeouts, half of those rounds -- until the round's events have been delivered, which zero-timeout polls must achieve within 2 s although the output stays pending); then drained with zero-timeout polls. One round in ten calls Terminal::position() instead of poll: the peer answers the cursor position request after 0 / 1-59 / 200-399 / 1200 ms, optionally typing 1-3 characters in the same write as its answer; nothing that arrived meanwhile may be lost or reordered. In 30% of the wake rounds one more wake request is issued as soon as the poll under test has returned, before any other poll is entered; it must produce a further Wake event. A `WinchTwice` round (escape-sequence size sessions) raises SIGWINCH, polls with 50 ms, and raises it again through the hook right after the terminal has answered the size request and before the terminal object has read the answer: two Resize events must arrive within 2 s. Oracles: >=1 and <= #calls Wake events for wake rounds, typed characters delivered in order, >=1 Resize per SIGWINCH round, no spurious Wake. Exit path: drop | drop with pending output | Terminal::run handler error/quit at step k | run_render handler error at step k | SIGTERM/SIGINT/SIGQUIT (must surface as Error::Quit) | SIGTERM/SIGINT/SIGQUIT raised at one of the 7 points of the first poll iteration inside drop | drop with the front chunk of the output queue partly transmitted (peer stalled, 20-200 kB written and polled, 1-3000 more bytes queued, peer resumes, drop) | an application that switched mouse reporting on and the cursor off, wrote a frame, queued its own cursor-visible/mouse-off commands behind it (optionally polled once) and is dropped: the last set/reset the tty received for modes 1000, 1003, 1006 must be reset and for mode 25 set | master closed first; one session in four runs on a pty whose ioctl reports no pixel size while the peer answers CSI 18 t CSI 14 t, so the terminal object takes its size from escape sequences and answers SIGWINCH by asking the terminal (the Resize event then gets the same bounded 2 s as typed characters); afterwards tcgetattr on the slave must equal the snapshot taken before open and (master still open) the bytes received after the last application output must contain ESC[?1003l, ESC[?1006l, ESC[?1000l and ESC[?25h. non-trivial = a trigger placed strictly inside a poll or inside the release, or output pending during a round or at release".into()
     }
 
     fn assumptions(&self) -> Vec<String> {
